@@ -266,6 +266,10 @@ def item_diff(got: dict, want: list):
         if not _eq(v, val):
             return f"{name} = {_show(v)}; XTCE semantics give {val!r}"
         rv = v.attrs.get("raw_value", "<missing>")
+        rcls = getattr(rv, "cls", None)
+        if rcls is not None and rcls not in CLASS_OF.values():
+            return (f"{name}.raw_value is a {rcls} object (a view of the packet buffer with its own cursor and header accessors), "
+                    f"not the plain encoded value {raw!r}")
         if not _eq(rv, raw) or (isinstance(raw, (bytes, str)) != isinstance(rv, (bytes, str))) or (isinstance(raw, float) != isinstance(rv, float)):
             return f"{name}.raw_value = {_show(rv)}; the encoded value is {raw!r}"
     return None
@@ -286,7 +290,7 @@ def _eq(a, b):
     return a == b
 
 
-def end_to_end(ctx: Ctx):
+def end_to_end(ctx: Ctx, RULE: str = "R1.e"):
     prog = ctx.prog
     fi = prog.func(GEN)
     h = X.harness(prog)
@@ -295,7 +299,7 @@ def end_to_end(ctx: Ctx):
         g1 = X.write_tree(h, d0)
         d = X.load(h, clone_tree(g1), "xtce")
     except Raised as r:
-        ctx.refuted("R1.e", f"{GEN}::document", f"the checker's all-features document cannot be written/loaded: {r.exc.tname} {r.exc.args}")
+        ctx.refuted(RULE, f"{GEN}::document", f"the checker's all-features document cannot be written/loaded: {r.exc.tname} {r.exc.args}")
         return
     le16 = lambda x: (x & 0xFFFF).to_bytes(2, "little")  # noqa: E731
     sci_a = bytes([2, 0x1F]) + le16(500) + struct.pack("<f", 1.0) + bytes.fromhex("40000001") + struct.pack(">e", 1.0) + bytes([1, 0])
@@ -324,43 +328,171 @@ def end_to_end(ctx: Ctx):
             h.it.events.clear()
             k, got = h.outcome("d.packet_generator(src, yield_unrecognized_packet_errors=rep)", DEF, d=d, src=stream, rep=report)
         except (Unsupported, StepLimit) as e:
-            ctx.unknown("R1.e", site0, str(e))
+            ctx.unknown(RULE, site0, str(e))
             continue
         if k != "ok":
-            ctx.refuted("R1.e", site0, f"decoding the all-features stream ends in {got}", where=where(fi, fi.node))
+            ctx.refuted(RULE, site0, f"decoding the all-features stream ends in {got}", where=where(fi, fi.node))
             continue
         want_seq = [p for p in packets if p[2] is not None or report]
         if len(got) != len(want_seq):
-            ctx.refuted("R1.e", site0, f"{len(got)} items yielded for {len(packets)} packets; expected {len(want_seq)} "
+            ctx.refuted(RULE, site0, f"{len(got)} items yielded for {len(packets)} packets; expected {len(want_seq)} "
                                        f"({'undefined packets reported in position' if report else 'undefined packets skipped'})", where=where(fi, fi.node))
             continue
         for (desc, data, ref, _), y in zip(want_seq, got):
             site = f"{site0}::{desc}"
             if ref is None:
                 ok = isinstance(y, ExcVal) and y.tname == "UnrecognizedPacketTypeError"
-                ctx.decide(ok, "R1.e", site, "reported as unrecognized", f"{desc}: yielded {y!r} instead of an unrecognized-packet report", where=where(fi, fi.node))
+                ctx.decide(ok, RULE, site, "reported as unrecognized", f"{desc}: yielded {y!r} instead of an unrecognized-packet report", where=where(fi, fi.node))
                 continue
             if not isinstance(y, dict):
-                ctx.refuted("R1.e", site, f"{desc}: yielded {y!r} instead of a parsed packet", where=where(fi, fi.node))
+                ctx.refuted(RULE, site, f"{desc}: yielded {y!r} instead of a parsed packet", where=where(fi, fi.node))
                 continue
             try:
                 want = ref()
             except AssertionError as e:
-                ctx.unknown("R1.e", site, f"reference computation failed: {e}")
+                ctx.unknown(RULE, site, f"reference computation failed: {e}")
                 continue
             diff = item_diff(y, want)
-            ctx.decide(diff is None, "R1.e", site, f"{len(want)} items agree (name, order, value, raw value, class)", f"{desc}: {diff}", where=where(fi, fi.node))
+            ctx.decide(diff is None, RULE, site, f"{len(want)} items agree (name, order, value, raw value, class)", f"{desc}: {diff}", where=where(fi, fi.node))
     # headers only: raw packets, one per input packet
     try:
         k, got = h.outcome("d.packet_generator(src, ccsds_headers_only=True)", DEF, d=d, src=stream)
         ok = k == "ok" and [bytes(x) for x in got] == [p[1] for p in packets]
-        ctx.decide(ok, "R1.e", f"{GEN}::headers-only", "", f"headers-only mode yields {len(got) if k == 'ok' else got} items; expected the {len(packets)} raw packets",
+        ctx.decide(ok, RULE, f"{GEN}::headers-only", "", f"headers-only mode yields {len(got) if k == 'ok' else got} items; expected the {len(packets)} raw packets",
                    where=where(fi, fi.node))
     except (Unsupported, StepLimit) as e:
-        ctx.unknown("R1.e", f"{GEN}::headers-only", str(e))
+        ctx.unknown(RULE, f"{GEN}::headers-only", str(e))
+
+
+# ------------------------------------------------------------------------------------ second end-to-end document
+def second_src() -> str:
+    """A second document, assembled from objects, for the classes the all-features document does not reach: sibling
+    containers that both match, (A or B) and (C or D) criteria, a context calibrator keyed on the parameter's own raw
+    value (0 included), a step spline queried at its last point, the XTCE 1.1 spelling `twosCompliment`, a length lookup
+    whose first entry is only partly satisfied."""
+    E, C, M = X.E, X.C, X.M
+    params = []
+    for n, w in X.HEADER:
+        params.append(f'parameters.Parameter("{n}", parameter_types.IntegerParameterType("{n}_T", {X._int(w)}))')
+    own = f"{C}.ContextCalibrator([{M}.Comparison('0', 'Z', use_calibrated_value=False)], {C}.PolynomialCalibrator([{C}.PolynomialCoefficient(5.0, 0), {C}.PolynomialCoefficient(2.0, 1)]))"
+    step = f"{C}.SplineCalibrator([{C}.SplinePoint(0.0, 1.0), {C}.SplinePoint(10.0, 2.0), {C}.SplinePoint(20.0, 3.5)], order=0)"
+    lookups = (f"[{M}.DiscreteLookup([{M}.Comparison('1', 'K'), {M}.Comparison('0', 'Z', use_calibrated_value=False)], 8), "
+               f"{M}.DiscreteLookup([{M}.Comparison('1', 'K'), {M}.Comparison('1', 'Z', operator='>=', use_calibrated_value=False)], 16), "
+               f"{M}.DiscreteLookup([{M}.Comparison('2', 'K')], 8)]")
+    types = {
+        "K": f'parameter_types.IntegerParameterType("K_T", {X._int(8)})',
+        "Z": f'parameter_types.IntegerParameterType("Z_T", {E}.IntegerDataEncoding(8, "unsigned", context_calibrators=[{own}]))',
+        "S0": f'parameter_types.IntegerParameterType("S0_T", {E}.IntegerDataEncoding(8, "unsigned", default_calibrator={step}))',
+        "TC": f'parameter_types.IntegerParameterType("TC_T", {X._int(16, "twosCompliment")})',
+        "LB": f'parameter_types.BinaryParameterType("LB_T", {E}.BinaryDataEncoding(size_discrete_lookup_list={lookups}))',
+        "PA": f'parameter_types.IntegerParameterType("PA_T", {X._int(8)})',
+        "PB": f'parameter_types.IntegerParameterType("PB_T", {X._int(8)})',
+    }
+    for n, t in types.items():
+        params.append(f'parameters.Parameter("{n}", {t})')
+    crit_a = (f"[{M}.BooleanExpression({M}.Anded([], [{M}.Ored([{M}.Condition('K', '==', right_value='1', right_use_calibrated_value=False), {M}.Condition('K', '==', right_value='2', right_use_calibrated_value=False)], []), "
+              f"{M}.Ored([{M}.Condition('Z', '==', right_value='0', left_use_calibrated_value=False, right_use_calibrated_value=False), "
+              f"{M}.Condition('Z', '>=', right_value='3', left_use_calibrated_value=False, right_use_calibrated_value=False)], [])]))]")
+    return f"""(lambda P: XtcePacketDefinition([
+        containers.SequenceContainer("CCSDSPacket", [P[n] for n in {[n for n, _ in X.HEADER] + ["K", "Z", "S0", "TC", "LB"]!r}]),
+        containers.SequenceContainer("CH_A", [P["PA"]], base_container_name="CCSDSPacket", restriction_criteria={crit_a}),
+        containers.SequenceContainer("CH_B", [P["PB"]], base_container_name="CCSDSPacket", restriction_criteria=[{M}.Comparison("2", "K")]),
+      ], ns={{"xtce": "{X.URI}"}}, xtce_ns_prefix="xtce"))({{p.name: p for p in [{", ".join(params)}]}})"""
+
+
+def ref_second(user: bytes):
+    """Reference decoding of the second document: (kind, items) with kind in 'ok' / 'unrecognized'."""
+    b = Bits(user)
+    k, z, s0r, = b.u(8), b.u(8), b.u(8)
+    tc = b.u(16)
+    tc = tc - 65536 if tc & 0x8000 else tc
+    items = [("K", "Int", k, k)]
+    items.append(("Z", "Float", 5.0 + 2.0 * z, z) if z == 0 else ("Z", "Int", z, z))
+    xs, ys = (0.0, 10.0, 20.0), (1.0, 2.0, 3.5)
+    assert xs[0] <= s0r <= xs[-1], "reference: S0 outside the spline"
+    items.append(("S0", "Float", ys[max(i for i in range(3) if xs[i] <= s0r)], s0r))
+    items.append(("TC", "Int", tc, tc))
+    if k == 1 and z == 0:
+        nb = 8
+    elif k == 1 and z >= 1:
+        nb = 16
+    elif k == 2:
+        nb = 8
+    else:
+        raise AssertionError("reference: no lookup entry matches")
+    lb = b.bytes_left(nb)
+    items.append(("LB", "Binary", lb, lb))
+    a = (k == 1 or k == 2) and (z == 0 or z >= 3)
+    bb = k == 2
+    if a and bb:
+        return "unrecognized", items
+    if a:
+        v = b.u(8)
+        items.append(("PA", "Int", v, v))
+    elif bb:
+        v = b.u(8)
+        items.append(("PB", "Int", v, v))
+    return "ok", items
+
+
+def end_to_end_second(ctx: Ctx, RULE: str = "R1.e2"):
+    prog = ctx.prog
+    fi = prog.func(GEN)
+    h = X.harness(prog)
+    try:
+        d0 = h.ev(second_src(), DEF)
+        d = X.load(h, clone_tree(X.write_tree(h, d0)), "xtce")     # inheritor links are made by the loader
+    except Raised as r:
+        ctx.refuted(RULE, f"{GEN}::second document", f"the checker's second document cannot be assembled: {r.exc.tname} {r.exc.args}")
+        return
+    cases = [
+        ("(K=1 or K=2) and (Z=0 or Z>=3): second alternative of the second group; own-value context does not apply; spline at its last point; negative twosCompliment; 16-bit lookup after a partly satisfied entry",
+         bytes([1, 3, 20, 0xFF, 0xFE, 0xAB, 0xCD, 7])),
+        ("both sibling containers match (K=2, Z=0): unrecognized; own-value context calibrator at raw 0", bytes([2, 0, 10, 0x00, 0x01, 0x11, 9])),
+        ("only the second sibling matches (K=2, Z=1); spline at an inner point", bytes([2, 1, 10, 0x7F, 0xFF, 0x22, 9])),
+        ("first group and first alternative of the second group (K=1, Z=0); most negative twosCompliment; spline between points", bytes([1, 0, 15, 0x80, 0x00, 0x33, 4])),
+        ("second group false (K=1, Z=1): the concrete root ends the packet; spline at its first point", bytes([1, 1, 0, 0x00, 0x00, 0x44, 0x55])),
+    ]
+    for report in (False, True):
+        for desc, user in cases:
+            site = f"{GEN}::second document::report_unrecognized={report}::{desc[:60]}"
+            try:
+                kind, want = ref_second(user)
+            except AssertionError as e:
+                ctx.unknown(RULE, site, str(e))
+                continue
+            try:
+                h.it.events.clear()
+                k, got = h.outcome("d.packet_generator(src, yield_unrecognized_packet_errors=rep)", DEF, d=d,
+                                   src=ccsds_bytes(user, apid=33), rep=report)
+            except (Unsupported, StepLimit) as e:
+                ctx.unknown(RULE, site, str(e))
+                continue
+            if k != "ok":
+                ctx.refuted(RULE, site, f"{desc}: decoding ends in {got}", where=where(fi, fi.node))
+                continue
+            full = header_items(33, len(user)) + want
+            if kind == "unrecognized":
+                if not report:
+                    ctx.decide(len(got) == 0, RULE, site, "skipped", f"{desc}: {len(got)} item(s) yielded; a packet matching two sibling containers "
+                               f"is not defined by the document and must be skipped", where=where(fi, fi.node))
+                else:
+                    y = got[0] if len(got) == 1 else None
+                    pd = y.kwargs.get("partial_data") if isinstance(y, ExcVal) else None
+                    ok = isinstance(y, ExcVal) and y.tname == "UnrecognizedPacketTypeError" and isinstance(pd, dict) and item_diff(pd, full) is None
+                    ctx.decide(ok, RULE, site, "reported with the values decoded so far",
+                               f"{desc}: yielded {y!r}{' with partial data: ' + str(item_diff(pd, full)) if isinstance(pd, dict) else ''}; expected an "
+                               f"unrecognized-packet report carrying the root container's items", where=where(fi, fi.node))
+                continue
+            if len(got) != 1 or not isinstance(got[0], dict):
+                ctx.refuted(RULE, site, f"{desc}: yielded {got!r} instead of one parsed packet", where=where(fi, fi.node))
+                continue
+            diff = item_diff(got[0], full)
+            ctx.decide(diff is None, RULE, site, f"{len(full)} items agree", f"{desc}: {diff}", where=where(fi, fi.node))
 
 
 def check(ctx: Ctx) -> None:
+    ctx.guard("R1.e2", GEN, end_to_end_second, ctx)
     ctx.guard("R1.1", DEF, registries, ctx)
     ctx.guard("R1.2", DEF, dispatch, ctx)
     ctx.guard("R1.e", GEN, end_to_end, ctx)
@@ -395,7 +527,7 @@ SPEC = PropSpec(
     pid="C01",
     title="End-to-end decoding conforms to the XTCE document for every stream",
     check=check,
-    floors={"R1.1": 15, "R1.2": 12, "R1.e": 12},
+    floors={"R1.e2": 10, "R1.1": 15, "R1.2": 12, "R1.e": 12},
     explanation=("Skeleton rules that hold for every document and stream: R1.1 the tag->class registry of parameter types and "
                  "the class lists tried for encodings and default calibrators contain every concrete class under its own "
                  "class name (the tag the writer emits); R1.2 every concrete parameter type / encoding resolves "
